@@ -197,6 +197,60 @@ class Check:
         for f in r.get('failures', []):
             self.failure(f)
 
+    # -- engine K
+    def run_kani(self, specs, jobs=16, timeout=1500):
+        """specs: list of dict(harness=..., key=..., confirm=callable(values, native) -> (confirmed, what, replay) or None,
+        symbolic=description of the harness's free variables)"""
+        from engine import kani as K
+        names = [sp['harness'] for sp in specs]
+        results, wall, built, err = K.run(self.ov, names, features=self.features or 'svg', jobs=jobs, timeout=timeout)
+        self.cov.setdefault('kani', {'harnesses': [], 'wall_s': 0.0, 'version': 'Kani 0.68.0 / CBMC 6.11.0 (CaDiCaL)'})
+        self.cov['kani']['wall_s'] += round(wall, 1)
+        if not built:
+            self.inconclusive.append('cargo kani did not build the overlay: %s' % err[-600:])
+            return results
+        native = None
+        for sp in specs:
+            r = results[sp['harness']]
+            d = r.as_dict()
+            d['symbolic'] = sp.get('symbolic', '')
+            self.cov['kani']['harnesses'].append(d)
+            self.cov['solver_time_s'] += r.time_s
+            self.cov['evaluations'] += r.checks
+            self.cov['obligations'] += r.checks
+            self.cov['queries']['issued'] += 1
+            if r.status == 'success':
+                self.cov['discharged'] += r.checks
+                self.cov['queries']['unsat'] += 1
+                self.cov['vacuity_witnesses'] += r.cover_sat
+                if r.cover_total and r.cover_sat < r.cover_total:
+                    self.inconclusive.append('kani harness %s: only %d of %d cover witnesses reachable (vacuity)' % (r.name, r.cover_sat, r.cover_total))
+                for i in range(r.checks):
+                    self._nontrivial.add('kani:%s#%d' % (r.name, i))
+                if len(self.cov['samples']) < 12:
+                    self.cov['samples'].append({'kani_harness': r.name, 'free_variables': sp.get('symbolic', ''), 'checks': r.checks,
+                                                'cover_witnesses': '%d/%d' % (r.cover_sat, r.cover_total), 'cbmc_time_s': r.time_s})
+            elif r.status == 'failed':
+                self.cov['queries']['sat'] += 1
+                self.cov['discharged'] += r.checks - r.failed
+                conf = sp.get('confirm')
+                confirmed, what, replay = False, 'kani: %s' % '; '.join(r.failed_desc[:2]), {'kani_values': r.values}
+                if conf is not None and r.values is not None:
+                    if native is None:
+                        native = self.native()
+                    try:
+                        confirmed, what, replay = conf(r.values, native) if not sp.get('raw') else conf(r.raw_values, native)
+                    except Exception as e:
+                        confirmed, what = False, 'replay of kani counterexample failed: %s' % e
+                self.failure({'key': sp.get('key', '%s/kani' % self.pid), 'what': what, 'confirmed': confirmed,
+                              'harness': r.name, 'replay': replay})
+            else:
+                self.cov['queries']['unknown'] += 1
+                self.inconclusive.append('kani harness %s: %s' % (r.name, r.status))
+        if native is not None:
+            native.close()
+        return results
+
     # -- failures
     def failure(self, f):
         """f: dict(key, what, replay (dict of request lines -> expectation), confirmed (bool))"""
